@@ -178,6 +178,24 @@ def run_case(spec):
     return fails, lines, expect, key
 
 
+def escalate(chk):
+    """a translator / correspondence of the surrogate-model bookkeeping broke: runs aimed at the clauses that are rarely exercised -
+    replacement=False under objectives whose non-finite region covers half of the space, subsampling, warm starts"""
+    r = C.rng("C17-escalate")
+    fails, n = [], 0
+    for name in MODEL_BASED:
+        for _ in range(12):
+            spec = gen_case(r, name, False)
+            spec["opt_kwargs"]["replacement"] = False
+            base = {k: v for k, v in spec["objective"].items() if k != "nonfinite"}
+            spec["objective"] = dict(base, nonfinite=dict(mod=2, res=r.choice([0, 1]), vals=[r.choice(["nan", "inf", "-inf"]) for _ in range(3)], salt=r.randrange(1000)))
+            spec["n_iter"] = 16
+            fl, _lines, _expect, _key = run_case(spec)
+            fails += fl
+            n += 1
+    chk.monitor("ESCALATED search (a translator or correspondence broke): C17 statement on runs aimed at replacement=False with large non-finite regions", n, fails)
+
+
 def run():
     chk = Check("C17", props_modules=["GFO.Props.C17", "GFO.Props.SmboRuns", "GFO.Props.DirectSelect", "GFO.Gen.SmboGenCheck", "GFO.Gen.TrackerGenCheck", "GFO.Gen.DirectGenCheck"], gen_steps=(translators.gen_smbo, translators.gen_tracker, translators.gen_direct))
     chk.build_and_audit()
@@ -224,4 +242,6 @@ def run():
     from . import localgen
     localgen.add_smbo_to(chk, C.rng("C17-smbo"), C.T(6, 40), constraint_p=0.4, nonfinite_p=0.3)
     localgen.add_direct_to(chk, C.rng("C17-direct"), C.T(20, 200), constraint_p=0.4, nonfinite_p=0.2)
+    if chk.needs_escalation():
+        chk.stage("escalated search", escalate, chk)
     return chk.finish()
